@@ -456,6 +456,7 @@ func (s *MonStore) ProtoInto(target gen.StoreSpec, name string) *MonStore {
 type KeptProto struct {
 	PB   *sketchpb.Store
 	M    *model.Bins // content at the time ToProto was called (no folding: the message is not bounded)
+	Uses int         // how many times it has been merged into a store so far
 	From string
 }
 
